@@ -49,6 +49,8 @@ def run(ctx):
     A, G = gen(ctx)
     obsA = ctx.run_impl(A, 'history', timeout=2400)
     obsG = ctx.run_impl(G, 'rhistory', timeout=2400)
+    raglib.locale_independent(ctx, A, obsA, 'history', 'array-history')
+    raglib.locale_independent(ctx, G, obsG, 'rhistory', 'ragged-history')
     termsA, keepA = [], []
     for case, steps in zip(A, obsA):
         key = dict(kind='Array', nt=case['nt'], shape=case['shape'], letters=case['letters'],
